@@ -33,6 +33,37 @@ CHECKS["C15"] = (
     "DESIGN.md section 3, C15",
 )
 
+CHECKS["C01"] = (
+    "property-based differential testing against an independent reference model (naive per-minute evaluator), plus full-range sweeps",
+    "Generated expressions (all selector kinds and their interplay through the three rule operators) x generated holiday calendars x expression-aware dates are evaluated by schedule_at / state and by a naive reference evaluator written from the documented semantics; the thorough tier additionally compares 192 generated expressions on every single day from 1900-01-01 to 9999-12-31.",
+    "Trusted: the reference model (DESIGN.md section 2) as the documented semantics; inputs outside its decided domain (carve-outs U1-U10) are skipped and counted. Sampled, not exhaustive, over expressions.",
+    "DESIGN.md sections 2 and 3, C01",
+)
+CHECKS["C05"] = (
+    "generator-as-oracle property-based testing (sentence generator with denotation) + boundary-value templates for rejection",
+    "A grammar-directed generator produces each sentence together with the syntax tree it denotes (built without the parser), under every syntactic variant the grammar documents; parse must return exactly that tree. 40 one-field templates filled with in-range and out-of-range boundary values, and the property's list of rejected / unsupported forms, check rejection.",
+    "Trusted: the generator's denotation of each construct (written from the OSM grammar, the grammar file's comments and parser tests). Forms neither promised nor listed as rejected are not asserted.",
+    "DESIGN.md section 3, C05",
+)
+CHECKS["C06"] = (
+    "metamorphic round-trip testing: print, reparse, compare evaluations",
+    "For generated expressions and their normal forms the printed text must parse, and the reparsed expression must yield the same merged (kind, comment-fragment) ranges on expression-aware dates under generated holiday calendars.",
+    "Trusted: the library's pointwise evaluation on both sides (its correctness is C01). Comments compared as sets of ', '-separated fragments. Python str/repr forms are exercised by the C12 driver.",
+    "DESIGN.md section 3, C06",
+)
+CHECKS["C07"] = (
+    "metamorphic testing: normalize() must preserve pointwise evaluation, plus full-range sweeps",
+    "Generated expressions biased towards the constructs the normaliser rewrites (and mixes with ones it leaves alone) are compared with their normal form on every minute of expression-aware dates (incl. days after matching days) and on state(); the thorough tier compares 96 rewritten expressions on every day 1900..9999.",
+    "Trusted: the library's pointwise evaluation as the oracle on both sides.",
+    "DESIGN.md section 3, C07",
+)
+CHECKS["C13"] = (
+    "property-based testing of algebraic laws: idempotence, determinism, printability of normal forms",
+    "normalize(normalize(e)) == normalize(e) for generated expressions; clones (also on another thread), the OpeningHours wrapper and a second parse of the same text normalise to the same value; the normal form satisfies the C06 print/reparse relation.",
+    "Trusted: the library's derived PartialEq on expressions.",
+    "DESIGN.md section 3, C13",
+)
+
 NOT_YET = {}
 
 def main():
